@@ -469,7 +469,11 @@ def geogram_attributes(containers):
         try:
             path = os.path.join(tmp, "a.geogram_ascii")
             try:
-                M.mesh.save(mesh, path)
+                # export switch: ignoring an element kind the surface does not have changes nothing
+                if sx.flag("saved_with_ignore_elements_cells"):
+                    M.mesh.save(mesh, path, ignore_elements={"cells"})
+                else:
+                    M.mesh.save(mesh, path)
                 loaded = M.mesh.load(path)
             except Exception as e:
                 sx.check(False, "geogram_ascii round trip of an attribute raised" + tag, detail=repr(e))
